@@ -1,1 +1,883 @@
-fn main(){}
+//! dalek-sim-alloc: the allocator seam (property C14).
+//!
+//! A deterministic arena allocator (`SimAlloc`) is the process's global allocator. Inside a
+//! recording window every block handed back to the allocator (dealloc, the old block of a moving
+//! realloc, the tail of a shrinking realloc) is copied aside *before* it is released. Each
+//! create/use/drop history is executed twice with secrets that differ, everything else equal
+//! (same public points, same allocator policy, same addresses because the arena is reset):
+//!   * heap clause  - any byte of any freed block that differs between the two executions depends
+//!                    on the secret scalars;
+//!   * drop clause  - after dropping a secret-holding object neither its slot nor the block its Box
+//!                    lived in may contain an 8-byte window of any of its secret byte strings.
+//! Single-threaded by design; parallelism is by processes. Exit codes as dalek-sim.
+
+#![allow(static_mut_refs)]
+
+use curve25519_dalek::edwards::EdwardsPoint;
+use curve25519_dalek::ristretto::RistrettoPoint;
+use curve25519_dalek::scalar::Scalar;
+use curve25519_dalek::traits::MultiscalarMul;
+use serde::{Deserialize, Serialize};
+use simcore::{bump, bump_by, Counters, Prng};
+use std::alloc::{GlobalAlloc, Layout, System};
+use std::cell::Cell;
+use std::collections::BTreeSet;
+use std::mem::MaybeUninit;
+use zeroize::Zeroize;
+
+// ------------------------------------------------------------------ dispatcher seam (same contract as dalek-sim)
+
+thread_local! {
+    static DISPATCH_PREF: Cell<u8> = const { Cell::new(0) };
+    static DISPATCH_COUNTS: Cell<[u64; 4]> = const { Cell::new([0; 4]) };
+}
+
+#[no_mangle]
+pub extern "Rust" fn curve25519_dalek_verif_pick_backend(compiled: u8) -> u8 {
+    let pref = DISPATCH_PREF.with(|c| c.get());
+    let cpu_ok = match pref {
+        1 => true,
+        #[cfg(target_arch = "x86_64")]
+        2 => std::is_x86_feature_detected!("avx2"),
+        #[cfg(target_arch = "x86_64")]
+        3 => std::is_x86_feature_detected!("avx512ifma") && std::is_x86_feature_detected!("avx512vl"),
+        _ => false,
+    };
+    let ans = if pref != 0 && (compiled >> (pref - 1)) & 1 == 1 && cpu_ok { pref } else { 0 };
+    DISPATCH_COUNTS.with(|c| {
+        let mut v = c.get();
+        v[ans as usize] += 1;
+        c.set(v);
+    });
+    ans
+}
+
+// ------------------------------------------------------------------ SimAlloc
+
+const ARENA_SIZE: usize = 768 << 20;
+const SNAP_SIZE: usize = 512 << 20;
+const MAX_ENTRIES: usize = 1 << 16;
+
+#[repr(align(4096))]
+struct Region<const N: usize>([u8; N]);
+
+static mut ARENA: Region<ARENA_SIZE> = Region([0; ARENA_SIZE]);
+static mut SNAP: Region<SNAP_SIZE> = Region([0; SNAP_SIZE]);
+static mut ENTRIES: [(u8, usize, usize, usize); MAX_ENTRIES] = [(0, 0, 0, 0); MAX_ENTRIES];
+static mut N_ENTRIES: usize = 0;
+static mut SNAP_TOP: usize = 0;
+static mut TOP: usize = 0;
+static mut ARENA_ON: bool = false;
+static mut RECORDING: bool = false;
+static mut REALLOC_IN_PLACE: bool = true;
+static mut OVERFLOW: bool = false;
+static mut STATS: [u64; 6] = [0; 6]; // allocs, frees, realloc_inplace, realloc_move, realloc_shrink, bytes_snapshotted
+
+struct SimAlloc;
+
+unsafe fn in_arena(p: *mut u8) -> bool {
+    let base = ARENA.0.as_ptr() as usize;
+    let a = p as usize;
+    a >= base && a < base + ARENA_SIZE
+}
+
+/// kind: 0 dealloc, 1 old block of a moving realloc, 2 tail of a shrinking realloc
+unsafe fn snapshot(kind: u8, p: *const u8, len: usize) {
+    if !RECORDING {
+        return;
+    }
+    if N_ENTRIES >= MAX_ENTRIES || SNAP_TOP + len > SNAP_SIZE {
+        OVERFLOW = true;
+        return;
+    }
+    std::ptr::copy_nonoverlapping(p, SNAP.0.as_mut_ptr().add(SNAP_TOP), len);
+    let off = p as usize - ARENA.0.as_ptr() as usize;
+    ENTRIES[N_ENTRIES] = (kind, SNAP_TOP, len, off);
+    N_ENTRIES += 1;
+    SNAP_TOP += len;
+    STATS[5] += len as u64;
+}
+
+unsafe fn arena_alloc(layout: Layout, fill: u8) -> *mut u8 {
+    let align = layout.align().max(16);
+    let start = (TOP + align - 1) & !(align - 1);
+    if start + layout.size() > ARENA_SIZE {
+        OVERFLOW = true;
+        return std::ptr::null_mut();
+    }
+    TOP = start + layout.size();
+    let p = ARENA.0.as_mut_ptr().add(start);
+    // fresh memory is poisoned so that reads of uninitialised bytes are identical in paired runs
+    std::ptr::write_bytes(p, fill, layout.size());
+    STATS[0] += 1;
+    p
+}
+
+unsafe impl GlobalAlloc for SimAlloc {
+    unsafe fn alloc(&self, layout: Layout) -> *mut u8 {
+        if ARENA_ON {
+            arena_alloc(layout, 0xA5)
+        } else {
+            System.alloc(layout)
+        }
+    }
+    unsafe fn alloc_zeroed(&self, layout: Layout) -> *mut u8 {
+        if ARENA_ON {
+            arena_alloc(layout, 0)
+        } else {
+            System.alloc_zeroed(layout)
+        }
+    }
+    unsafe fn dealloc(&self, p: *mut u8, layout: Layout) {
+        if in_arena(p) {
+            snapshot(0, p, layout.size());
+            STATS[1] += 1;
+            // bump arena: memory is not reused before the next reset
+        } else {
+            System.dealloc(p, layout)
+        }
+    }
+    unsafe fn realloc(&self, p: *mut u8, layout: Layout, new_size: usize) -> *mut u8 {
+        if !in_arena(p) {
+            return System.realloc(p, layout, new_size);
+        }
+        let off = p as usize - ARENA.0.as_ptr() as usize;
+        if new_size <= layout.size() {
+            snapshot(2, p.add(new_size), layout.size() - new_size);
+            STATS[4] += 1;
+            return p;
+        }
+        if REALLOC_IN_PLACE && off + layout.size() == TOP && off + new_size <= ARENA_SIZE {
+            std::ptr::write_bytes(p.add(layout.size()), 0xA5, new_size - layout.size());
+            TOP = off + new_size;
+            STATS[2] += 1;
+            return p;
+        }
+        let np = arena_alloc(Layout::from_size_align_unchecked(new_size, layout.align()), 0xA5);
+        if np.is_null() {
+            return np;
+        }
+        std::ptr::copy_nonoverlapping(p, np, layout.size());
+        snapshot(1, p, layout.size());
+        STATS[3] += 1;
+        np
+    }
+}
+
+#[global_allocator]
+static GLOBAL: SimAlloc = SimAlloc;
+
+struct Freed {
+    kind: u8,
+    off: usize,
+    data: Vec<u8>,
+}
+
+fn window_begin(in_place: bool) {
+    unsafe {
+        TOP = 0;
+        N_ENTRIES = 0;
+        SNAP_TOP = 0;
+        REALLOC_IN_PLACE = in_place;
+        ARENA_ON = true;
+        RECORDING = true;
+    }
+}
+
+fn window_end() -> Vec<Freed> {
+    unsafe {
+        RECORDING = false;
+        ARENA_ON = false;
+        let mut v = Vec::with_capacity(N_ENTRIES);
+        for i in 0..N_ENTRIES {
+            let (kind, soff, len, off) = ENTRIES[i];
+            v.push(Freed { kind, off, data: SNAP.0[soff..soff + len].to_vec() });
+        }
+        v
+    }
+}
+
+// ------------------------------------------------------------------ plan
+
+#[derive(Clone, Debug, Serialize, Deserialize, PartialEq)]
+#[serde(tag = "op")]
+enum Op {
+    /// constant-time multiscalar multiplication with n secret scalars. g 0 Edwards / 1 Ristretto
+    Msm { g: u8, n: u32, it: u8 },
+    /// Scalar::batch_invert on n secret non-zero scalars
+    BatchInvert { n: u32 },
+    /// create a secret-holding object in slot s. ty 0 SigningKey 1 ExpandedSecretKey 2 EphemeralSecret
+    /// 3 ReusableSecret 4 StaticSecret 5 SharedSecret; how 0 from bytes / rng, 1 clone of a fresh one
+    Create { s: u8, ty: u8, how: u8 },
+    /// use the object in slot s (sign, DH, to_bytes)
+    Use { s: u8 },
+    /// drop the object in slot s. via 0 in-place slot, 1 Box, 2 Vec of two
+    Drop { s: u8, via: u8 },
+    /// explicit zeroisation of a value type. ty 0 Scalar 1 EdwardsPoint 2 RistrettoPoint 3 CompressedEdwardsY
+    /// 4 CompressedRistretto 5 MontgomeryPoint
+    ZeroizeCall { ty: u8 },
+    /// unrelated allocations in between
+    Noise { sizes: Vec<u32> },
+}
+
+#[derive(Clone, Debug, Serialize, Deserialize)]
+struct APlan {
+    seed: u64,
+    run: u64,
+    secret_seed: u64,
+    /// dispatcher answer forced for the whole history
+    d: u8,
+    realloc_in_place: bool,
+    ops: Vec<Op>,
+}
+
+#[derive(Clone, Debug, Serialize, Deserialize)]
+struct AViolation {
+    op: usize,
+    class: String,
+    detail: String,
+}
+
+#[derive(Clone, Debug, Serialize, Deserialize)]
+struct AReplay {
+    version: u32,
+    property: String,
+    build: std::collections::BTreeMap<String, String>,
+    plan: APlan,
+    violation: AViolation,
+    signature: String,
+    original_ops: usize,
+}
+
+fn generate(seed: u64, run: u64, thorough: bool) -> APlan {
+    let mut rng = Prng::new(simcore::run_seed(seed, 0x61_6c_6c_6f_63, run));
+    let nops = 1 + rng.below(10) as usize;
+    let sizes_q = [0u32, 1, 2, 3, 7, 8, 9, 16, 33, 64];
+    let sizes_t = [0u32, 1, 2, 3, 7, 8, 9, 16, 33, 64, 100, 200];
+    let mut ops = Vec::new();
+    let mut live: Vec<u8> = Vec::new();
+    for _ in 0..nops {
+        let sizes: &[u32] = if thorough { &sizes_t } else { &sizes_q };
+        match rng.below(12) {
+            0..=2 => ops.push(Op::Msm { g: rng.below(2) as u8, n: *rng.pick(sizes), it: rng.below(4) as u8 }),
+            3 | 4 => ops.push(Op::BatchInvert { n: *rng.pick(sizes) }),
+            5 | 6 => {
+                let s = rng.below(6) as u8;
+                ops.push(Op::Create { s, ty: rng.below(6) as u8, how: rng.below(2) as u8 });
+                if !live.contains(&s) {
+                    live.push(s);
+                }
+            }
+            7 => {
+                if let Some(&s) = live.first() {
+                    ops.push(Op::Use { s });
+                }
+            }
+            8 | 9 => {
+                if !live.is_empty() {
+                    let i = rng.below(live.len() as u64) as usize;
+                    let s = live.remove(i);
+                    ops.push(Op::Drop { s, via: rng.below(3) as u8 });
+                }
+            }
+            10 => ops.push(Op::ZeroizeCall { ty: rng.below(6) as u8 }),
+            _ => {
+                let k = 1 + rng.below(4) as usize;
+                ops.push(Op::Noise { sizes: (0..k).map(|_| 1 + rng.below(5000) as u32).collect() });
+            }
+        }
+    }
+    // everything still alive is dropped at the end of the history, in PRNG order
+    while !live.is_empty() {
+        let i = rng.below(live.len() as u64) as usize;
+        let s = live.remove(i);
+        ops.push(Op::Drop { s, via: rng.below(3) as u8 });
+    }
+    APlan { seed, run, secret_seed: rng.next(), d: rng.below(4) as u8, realloc_in_place: rng.coin(), ops }
+}
+
+// ------------------------------------------------------------------ secrets
+
+/// i-th 32-byte secret of variant v (0 / 1). The two variants differ in every byte.
+fn secret32(plan: &APlan, v: u8, i: u64) -> [u8; 32] {
+    let mut r = Prng::new(simcore::run_seed(plan.secret_seed, 0x5ec, i));
+    let mut a = r.arr32();
+    if v == 1 {
+        for b in a.iter_mut() {
+            *b ^= 0xa5;
+        }
+    }
+    a
+}
+
+fn secret_scalar(plan: &APlan, v: u8, i: u64) -> Scalar {
+    let s = Scalar::from_bytes_mod_order(secret32(plan, v, i));
+    if s == Scalar::ZERO {
+        Scalar::ONE
+    } else {
+        s
+    }
+}
+
+fn public_point(plan: &APlan, i: u64) -> EdwardsPoint {
+    // public inputs: identical in both variants
+    let mut r = Prng::new(simcore::run_seed(plan.secret_seed, 0x9ab, i));
+    EdwardsPoint::mul_base(&Scalar::from_bytes_mod_order(r.arr32()))
+}
+
+// ------------------------------------------------------------------ secret-holding objects
+
+enum Obj {
+    Sk(ed25519_dalek::SigningKey),
+    Esk(ed25519_dalek::hazmat::ExpandedSecretKey),
+    Eph(x25519_dalek::EphemeralSecret),
+    Reu(x25519_dalek::ReusableSecret),
+    Sta(x25519_dalek::StaticSecret),
+    Sh(x25519_dalek::SharedSecret),
+}
+
+struct FixedRng([u8; 32], usize);
+impl rand_core::RngCore for FixedRng {
+    fn next_u32(&mut self) -> u32 {
+        let mut b = [0u8; 4];
+        self.fill_bytes(&mut b);
+        u32::from_le_bytes(b)
+    }
+    fn next_u64(&mut self) -> u64 {
+        let mut b = [0u8; 8];
+        self.fill_bytes(&mut b);
+        u64::from_le_bytes(b)
+    }
+    fn fill_bytes(&mut self, dest: &mut [u8]) {
+        for d in dest.iter_mut() {
+            *d = self.0[self.1 % 32];
+            self.1 += 1;
+        }
+    }
+    fn try_fill_bytes(&mut self, dest: &mut [u8]) -> Result<(), rand_core::Error> {
+        self.fill_bytes(dest);
+        Ok(())
+    }
+}
+impl rand_core::CryptoRng for FixedRng {}
+
+/// the object plus every secret byte string it holds
+fn make_obj(ty: u8, how: u8, sec: [u8; 32], sec2: [u8; 32]) -> (Obj, Vec<Vec<u8>>) {
+    use sha2::Digest;
+    match ty {
+        0 => {
+            let sk = if how == 0 { ed25519_dalek::SigningKey::from_bytes(&sec) } else { ed25519_dalek::SigningKey::generate(&mut FixedRng(sec, 0)).clone() };
+            (Obj::Sk(sk), vec![sec.to_vec()])
+        }
+        1 => {
+            let mut b = [0u8; 64];
+            b[..32].copy_from_slice(&sec);
+            b[32..].copy_from_slice(&sec2);
+            let esk = ed25519_dalek::hazmat::ExpandedSecretKey::from_bytes(&b);
+            let secrets = vec![esk.scalar.to_bytes().to_vec(), esk.hash_prefix.to_vec()];
+            let _ = sha2::Sha512::new();
+            (Obj::Esk(esk), secrets)
+        }
+        2 => (Obj::Eph(x25519_dalek::EphemeralSecret::random_from_rng(FixedRng(sec, 0))), vec![sec.to_vec()]),
+        3 => {
+            let r = x25519_dalek::ReusableSecret::random_from_rng(FixedRng(sec, 0));
+            (Obj::Reu(if how == 1 { r.clone() } else { r }), vec![sec.to_vec()])
+        }
+        4 => {
+            let s = x25519_dalek::StaticSecret::from(sec);
+            (Obj::Sta(if how == 1 { s.clone() } else { s }), vec![sec.to_vec()])
+        }
+        _ => {
+            let s = x25519_dalek::StaticSecret::from(sec);
+            let their = x25519_dalek::PublicKey::from(&x25519_dalek::StaticSecret::from(sec2));
+            let sh = s.diffie_hellman(&their);
+            let bytes = sh.to_bytes().to_vec();
+            (Obj::Sh(sh), vec![bytes])
+        }
+    }
+}
+
+fn use_obj(o: &Obj) {
+    use ed25519_dalek::Signer;
+    match o {
+        Obj::Sk(sk) => {
+            let _ = sk.sign(b"history");
+            let _ = sk.to_bytes();
+        }
+        Obj::Esk(esk) => {
+            let vk = ed25519_dalek::VerifyingKey::from(esk);
+            let _ = ed25519_dalek::hazmat::raw_sign::<sha2::Sha512>(esk, b"history", &vk);
+        }
+        Obj::Eph(s) => {
+            let _ = x25519_dalek::PublicKey::from(s);
+        }
+        Obj::Reu(s) => {
+            let _ = s.diffie_hellman(&x25519_dalek::PublicKey::from([9u8; 32]));
+        }
+        Obj::Sta(s) => {
+            let _ = s.diffie_hellman(&x25519_dalek::PublicKey::from([9u8; 32]));
+            let _ = s.to_bytes();
+        }
+        Obj::Sh(s) => {
+            let _ = s.was_contributory();
+        }
+    }
+}
+
+fn has_window(hay: &[u8], secrets: &[Vec<u8>]) -> Option<usize> {
+    for s in secrets {
+        if s.len() < 8 || s.iter().all(|&b| b == 0) {
+            continue;
+        }
+        for w in s.windows(8) {
+            if w.iter().all(|&b| b == w[0]) {
+                continue; // constant windows (all zero etc.) carry no information
+            }
+            if let Some(p) = hay.windows(8).position(|h| h == w) {
+                return Some(p);
+            }
+        }
+    }
+    None
+}
+
+/// drop `obj` in place in a harness-owned slot and return the slot's bytes afterwards
+fn drop_in_slot<T>(obj: T) -> Vec<u8> {
+    let mut slot = MaybeUninit::<T>::uninit();
+    slot.write(obj);
+    unsafe {
+        std::ptr::drop_in_place(slot.as_mut_ptr());
+        let p = slot.as_ptr() as *const u8;
+        (0..std::mem::size_of::<T>()).map(|i| std::ptr::read_volatile(p.add(i))).collect()
+    }
+}
+
+// ------------------------------------------------------------------ execution of one history with one secret variant
+
+struct Trace {
+    /// per op: the blocks freed while it ran
+    freed: Vec<Vec<Freed>>,
+    /// per op: drop-clause findings (description)
+    drop_leaks: Vec<Option<String>>,
+    /// per op: explicit-zeroisation findings
+    zero_fail: Vec<Option<String>>,
+    overflow: bool,
+}
+
+fn run_variant(plan: &APlan, v: u8, c: &mut Counters) -> Trace {
+    let mut tr = Trace { freed: Vec::new(), drop_leaks: Vec::new(), zero_fail: Vec::new(), overflow: false };
+    let mut slots: Vec<Option<(Obj, Vec<Vec<u8>>)>> = (0..6).map(|_| None).collect();
+    let mut ctr = 0u64;
+    DISPATCH_PREF.with(|p| p.set(plan.d));
+    for op in &plan.ops {
+        let mut freed = Vec::new();
+        let mut leak = None;
+        let mut zf = None;
+        match op {
+            Op::Msm { g, n, it } => {
+                let n = *n as usize;
+                // inputs are the caller's: allocated outside the window
+                let scalars: Vec<Scalar> = (0..n).map(|i| secret_scalar(plan, v, ctr + i as u64)).collect();
+                let points: Vec<EdwardsPoint> = (0..n).map(|i| public_point(plan, ctr + i as u64)).collect();
+                let rpoints: Vec<RistrettoPoint> = points.iter().map(|p| curve25519_dalek::verif_hooks::ristretto_from_edwards(p + p)).collect();
+                ctr += n as u64;
+                window_begin(plan.realloc_in_place);
+                let r = std::panic::catch_unwind(|| match (*g, *it) {
+                    (0, 0) => EdwardsPoint::multiscalar_mul(scalars.iter(), points.iter()).compress().to_bytes(),
+                    (0, 1) => EdwardsPoint::multiscalar_mul(scalars.iter().cloned(), points.iter().cloned()).compress().to_bytes(),
+                    (0, 2) => {
+                        let h = n / 2;
+                        EdwardsPoint::multiscalar_mul(scalars[..h].iter().chain(scalars[h..].iter()), points[..h].iter().chain(points[h..].iter())).compress().to_bytes()
+                    }
+                    (0, _) => EdwardsPoint::multiscalar_mul(PlainRef(&scalars, 0), PlainRef(&points, 0)).compress().to_bytes(),
+                    (_, 0) => RistrettoPoint::multiscalar_mul(scalars.iter(), rpoints.iter()).compress().to_bytes(),
+                    (_, 1) => RistrettoPoint::multiscalar_mul(scalars.iter().cloned(), rpoints.iter().cloned()).compress().to_bytes(),
+                    (_, 2) => {
+                        let h = n / 2;
+                        RistrettoPoint::multiscalar_mul(scalars[..h].iter().chain(scalars[h..].iter()), rpoints[..h].iter().chain(rpoints[h..].iter())).compress().to_bytes()
+                    }
+                    (_, _) => RistrettoPoint::multiscalar_mul(PlainRef(&scalars, 0), PlainRef(&rpoints, 0)).compress().to_bytes(),
+                });
+                freed = window_end();
+                if r.is_err() {
+                    zf = Some("panic inside multiscalar_mul".to_string());
+                }
+                bump(c, "op:Msm");
+            }
+            Op::BatchInvert { n } => {
+                let n = *n as usize;
+                let mut scalars: Vec<Scalar> = (0..n).map(|i| secret_scalar(plan, v, ctr + i as u64)).collect();
+                ctr += n as u64;
+                window_begin(plan.realloc_in_place);
+                let r = std::panic::catch_unwind(std::panic::AssertUnwindSafe(|| Scalar::batch_invert(&mut scalars)));
+                freed = window_end();
+                if r.is_err() {
+                    zf = Some("panic inside batch_invert".to_string());
+                }
+                bump(c, "op:BatchInvert");
+            }
+            Op::Create { s, ty, how } => {
+                let sec = secret32(plan, v, ctr);
+                let sec2 = secret32(plan, v, ctr + 1);
+                ctr += 2;
+                // an object replaced in its slot is dropped: part of the history
+                slots[*s as usize % 6] = Some(make_obj(*ty, *how, sec, sec2));
+                bump(c, &format!("op:Create_ty{}", ty));
+            }
+            Op::Use { s } => {
+                if let Some((o, _)) = &slots[*s as usize % 6] {
+                    use_obj(o);
+                    bump(c, "op:Use");
+                }
+            }
+            Op::Drop { s, via } => {
+                if let Some((obj, secrets)) = slots[*s as usize % 6].take() {
+                    macro_rules! do_drop {
+                        ($x:expr) => {{
+                            let x = $x;
+                            match via {
+                                0 => {
+                                    let bytes = drop_in_slot(x);
+                                    if let Some(p) = has_window(&bytes, &secrets) {
+                                        leak = Some(format!("slot still holds secret bytes at offset {} after drop_in_place", p));
+                                    }
+                                }
+                                _ => {
+                                    window_begin(plan.realloc_in_place);
+                                    let b = Box::new(x);
+                                    std::hint::black_box(&b);
+                                    drop(b);
+                                    freed = window_end();
+                                    for f in &freed {
+                                        if let Some(p) = has_window(&f.data, &secrets) {
+                                            leak = Some(format!("freed block of {} bytes still holds secret bytes at offset {}", f.data.len(), p));
+                                        }
+                                    }
+                                    // drop-clause blocks are scanned, not diffed (they legitimately hold public keys)
+                                    freed.clear();
+                                }
+                            }
+                        }};
+                    }
+                    match obj {
+                        Obj::Sk(x) => do_drop!(x),
+                        Obj::Esk(x) => do_drop!(x),
+                        Obj::Eph(x) => do_drop!(x),
+                        Obj::Reu(x) => do_drop!(x),
+                        Obj::Sta(x) => do_drop!(x),
+                        Obj::Sh(x) => do_drop!(x),
+                    }
+                    bump(c, &format!("op:Drop_via{}", via));
+                }
+            }
+            Op::ZeroizeCall { ty } => {
+                let sec = secret32(plan, v, ctr);
+                ctr += 1;
+                use curve25519_dalek::traits::Identity;
+                let ok = match ty {
+                    0 => {
+                        let mut s = Scalar::from_bytes_mod_order(sec);
+                        s.zeroize();
+                        s == Scalar::ZERO && s.to_bytes() == [0u8; 32]
+                    }
+                    1 => {
+                        let mut p = EdwardsPoint::mul_base(&Scalar::from_bytes_mod_order(sec));
+                        p.zeroize();
+                        p == EdwardsPoint::identity() && refmodel::ed::check_extended(&curve25519_dalek::verif_hooks::edwards_coords(&p)).is_ok()
+                    }
+                    2 => {
+                        let mut p = RistrettoPoint::mul_base(&Scalar::from_bytes_mod_order(sec));
+                        p.zeroize();
+                        p == RistrettoPoint::identity()
+                    }
+                    3 => {
+                        let mut c = curve25519_dalek::edwards::CompressedEdwardsY(sec);
+                        c.zeroize();
+                        c == curve25519_dalek::edwards::CompressedEdwardsY::identity()
+                    }
+                    4 => {
+                        let mut c = curve25519_dalek::ristretto::CompressedRistretto(sec);
+                        c.zeroize();
+                        c.to_bytes() == [0u8; 32]
+                    }
+                    _ => {
+                        let mut m = curve25519_dalek::montgomery::MontgomeryPoint(sec);
+                        m.zeroize();
+                        m.to_bytes() == [0u8; 32]
+                    }
+                };
+                if !ok {
+                    zf = Some(format!("explicit zeroize of value type {} did not reset it", ty));
+                }
+                bump(c, "op:ZeroizeCall");
+            }
+            Op::Noise { sizes } => {
+                window_begin(plan.realloc_in_place);
+                let mut keep: Vec<Vec<u8>> = Vec::new();
+                for (i, sz) in sizes.iter().enumerate() {
+                    let mut b = vec![i as u8; *sz as usize];
+                    b.push(1);
+                    keep.push(b);
+                }
+                drop(keep);
+                freed = window_end();
+                bump(c, "op:Noise");
+            }
+        }
+        unsafe {
+            if OVERFLOW {
+                tr.overflow = true;
+                OVERFLOW = false;
+            }
+        }
+        tr.freed.push(freed);
+        tr.drop_leaks.push(leak);
+        tr.zero_fail.push(zf);
+    }
+    DISPATCH_PREF.with(|p| p.set(0));
+    // remaining objects are dropped outside any window
+    drop(slots);
+    tr
+}
+
+/// by-reference ExactSizeIterator that is not TrustedLen
+struct PlainRef<'a, T>(&'a [T], usize);
+impl<'a, T> Iterator for PlainRef<'a, T> {
+    type Item = &'a T;
+    fn next(&mut self) -> Option<&'a T> {
+        let r = self.0.get(self.1);
+        self.1 += 1;
+        r
+    }
+    fn size_hint(&self) -> (usize, Option<usize>) {
+        let n = self.0.len().saturating_sub(self.1);
+        (n, Some(n))
+    }
+}
+impl<'a, T> ExactSizeIterator for PlainRef<'a, T> {}
+
+/// Execute the history with both secret variants and compare.
+fn execute(plan: &APlan, c: &mut Counters) -> Result<Option<AViolation>, String> {
+    let a = run_variant(plan, 0, c);
+    let b = run_variant(plan, 1, &mut Counters::new());
+    if a.overflow || b.overflow {
+        return Err("arena or snapshot buffer overflow".into());
+    }
+    for i in 0..plan.ops.len() {
+        let kind = match &plan.ops[i] {
+            Op::Msm { .. } => "Msm",
+            Op::BatchInvert { .. } => "BatchInvert",
+            Op::Create { .. } => "Create",
+            Op::Use { .. } => "Use",
+            Op::Drop { .. } => "Drop",
+            Op::ZeroizeCall { .. } => "ZeroizeCall",
+            Op::Noise { .. } => "Noise",
+        };
+        for tr in [&a, &b] {
+            if let Some(l) = &tr.drop_leaks[i] {
+                return Ok(Some(AViolation { op: i, class: format!("{}:secret_survives_drop", kind), detail: l.clone() }));
+            }
+            if let Some(z) = &tr.zero_fail[i] {
+                return Ok(Some(AViolation { op: i, class: format!("{}:zeroize", kind), detail: z.clone() }));
+            }
+        }
+        let (fa, fb) = (&a.freed[i], &b.freed[i]);
+        if fa.len() != fb.len() {
+            return Ok(Some(AViolation { op: i, class: format!("{}:free_pattern_depends_on_secret", kind), detail: format!("{} vs {} frees", fa.len(), fb.len()) }));
+        }
+        bump_by(c, "frees_compared", fa.len() as u64);
+        for (k, (x, y)) in fa.iter().zip(fb.iter()).enumerate() {
+            bump_by(c, "freed_bytes_compared", x.data.len() as u64);
+            if x.kind == 1 {
+                bump(c, "probe:realloc_move_observed");
+            }
+            if x.data.len() != y.data.len() || x.off != y.off {
+                return Ok(Some(AViolation { op: i, class: format!("{}:free_pattern_depends_on_secret", kind), detail: format!("free #{}: {}@{} vs {}@{}", k, x.data.len(), x.off, y.data.len(), y.off) }));
+            }
+            let diff = x.data.iter().zip(y.data.iter()).filter(|(p, q)| p != q).count();
+            if diff > 0 {
+                let first = x.data.iter().zip(y.data.iter()).position(|(p, q)| p != q).unwrap();
+                return Ok(Some(AViolation {
+                    op: i,
+                    class: format!("{}:freed_block_depends_on_secret", kind),
+                    detail: format!("free #{} (kind {}, {} bytes): {} bytes differ between the two secrets, first at offset {}", k, x.kind, x.data.len(), diff, first),
+                }));
+            }
+        }
+    }
+    Ok(None)
+}
+
+fn shrink(plan: &APlan, v: &AViolation) -> (APlan, AViolation) {
+    let mut cur = plan.clone();
+    let mut curv = v.clone();
+    let mut changed = true;
+    let mut budget = 200;
+    while changed && budget > 0 {
+        changed = false;
+        let mut i = 0;
+        while i < cur.ops.len() && budget > 0 {
+            let mut p = cur.clone();
+            p.ops.remove(i);
+            budget -= 1;
+            match execute(&p, &mut Counters::new()) {
+                Ok(Some(nv)) if nv.class == curv.class => {
+                    cur = p;
+                    curv = nv;
+                    changed = true;
+                }
+                _ => i += 1,
+            }
+        }
+    }
+    // shrink sizes
+    for i in 0..cur.ops.len() {
+        loop {
+            let mut p = cur.clone();
+            let smaller = match &mut p.ops[i] {
+                Op::Msm { n, .. } | Op::BatchInvert { n } if *n > 1 => {
+                    *n -= 1;
+                    true
+                }
+                _ => false,
+            };
+            if !smaller || budget == 0 {
+                break;
+            }
+            budget -= 1;
+            match execute(&p, &mut Counters::new()) {
+                Ok(Some(nv)) if nv.class == curv.class => {
+                    cur = p;
+                    curv = nv;
+                }
+                _ => break,
+            }
+        }
+    }
+    (cur, curv)
+}
+
+fn signature(plan: &APlan, v: &AViolation) -> String {
+    let extra = match plan.ops.get(v.op) {
+        Some(Op::Msm { g, .. }) => format!("g={}:d={}", g, plan.d),
+        Some(Op::Drop { via, .. }) => format!("via={}", via),
+        Some(Op::ZeroizeCall { ty }) => format!("ty={}", ty),
+        _ => String::new(),
+    };
+    format!("{}:{}", v.class, extra)
+}
+
+fn plan_signature(plan: &APlan) -> u64 {
+    let mut s = serde_json::to_vec(&plan.ops).unwrap();
+    s.push(plan.d);
+    s.push(plan.realloc_in_place as u8);
+    simcore::fnv1a(&s)
+}
+
+fn build_info() -> std::collections::BTreeMap<String, String> {
+    let mut m = std::collections::BTreeMap::new();
+    m.insert("tag".into(), option_env!("DALEK_SIM_TAG").unwrap_or("unknown").into());
+    m.insert("profile".into(), if cfg!(debug_assertions) { "checked" } else { "release" }.into());
+    m
+}
+
+fn arg<'a>(args: &'a [String], name: &str) -> Option<&'a str> {
+    args.iter().position(|a| a == name).and_then(|i| args.get(i + 1)).map(|s| s.as_str())
+}
+
+fn main() {
+    std::panic::set_hook(Box::new(|_| {}));
+    let args: Vec<String> = std::env::args().skip(1).collect();
+    match args.first().map(|s| s.as_str()) {
+        Some("run") => {
+            let seed: u64 = arg(&args, "--seed").and_then(|s| s.parse().ok()).unwrap_or(0xD41E5EED);
+            let runs: u64 = arg(&args, "--runs").and_then(|s| s.parse().ok()).unwrap_or(100);
+            let start: u64 = arg(&args, "--start").and_then(|s| s.parse().ok()).unwrap_or(0);
+            let secs: Option<u64> = arg(&args, "--secs").and_then(|s| s.parse().ok());
+            let thorough = arg(&args, "--tier") == Some("thorough");
+            let replay_dir = arg(&args, "--replay-dir").unwrap_or("/verif/replays").to_string();
+            // wall clock is read only to stop a batch, never inside a history
+            let t0 = std::time::Instant::now();
+            let mut c = Counters::new();
+            let mut sigs = BTreeSet::new();
+            let mut viols = Vec::new();
+            let mut samples = Vec::new();
+            let mut done = 0u64;
+            for k in 0..runs {
+                if let Some(s) = secs {
+                    if k % 16 == 0 && t0.elapsed().as_secs() >= s {
+                        break;
+                    }
+                }
+                let plan = generate(seed, start + k, thorough);
+                match execute(&plan, &mut c) {
+                    Err(e) => {
+                        eprintln!("harness error: {}", e);
+                        std::process::exit(2);
+                    }
+                    Ok(None) => {}
+                    Ok(Some(v)) => {
+                        let (sp, sv) = shrink(&plan, &v);
+                        let sig = signature(&sp, &sv);
+                        let rf = AReplay { version: 1, property: "C14".into(), build: build_info(), plan: sp.clone(), violation: sv.clone(), signature: sig.clone(), original_ops: plan.ops.len() };
+                        let text = serde_json::to_string_pretty(&rf).unwrap();
+                        let dir = format!("{}/C14", replay_dir);
+                        let _ = std::fs::create_dir_all(&dir);
+                        let path = format!("{}/{}-{}-{:016x}.json", dir, seed, start + k, simcore::fnv1a(text.as_bytes()));
+                        let _ = std::fs::write(&path, &text);
+                        viols.push(serde_json::json!({"run": start + k, "replay": path, "class": sv.class, "signature": sig, "detail": sv.detail}));
+                    }
+                }
+                sigs.insert(plan_signature(&plan));
+                if k < 2 {
+                    samples.push(serde_json::to_value(&plan).unwrap());
+                }
+                done += 1;
+                if viols.len() >= 5 {
+                    break;
+                }
+            }
+            let dc = DISPATCH_COUNTS.with(|c| c.get());
+            for (k, n) in ["auto", "serial", "avx2", "ifma"].iter().zip(dc.iter()) {
+                bump_by(&mut c, &format!("dispatch:{}", k), *n);
+            }
+            unsafe {
+                for (k, n) in ["allocs", "frees", "realloc_in_place", "realloc_move", "realloc_shrink", "bytes_snapshotted"].iter().zip(STATS.iter()) {
+                    bump_by(&mut c, &format!("alloc:{}", k), *n);
+                }
+            }
+            let out = serde_json::json!({"runs": done, "distinct_signatures": sigs.len(), "counters": c, "violations": viols, "samples": samples, "build": build_info()});
+            println!("{}", out);
+            std::process::exit(if viols.is_empty() { 0 } else { 1 });
+        }
+        Some("replay") => {
+            let path = args.get(1).cloned().unwrap_or_default();
+            let rf: AReplay = match std::fs::read_to_string(&path).ok().and_then(|t| serde_json::from_str(&t).ok()) {
+                Some(r) => r,
+                None => {
+                    eprintln!("cannot read replay file {}", path);
+                    std::process::exit(2);
+                }
+            };
+            match execute(&rf.plan, &mut Counters::new()) {
+                Err(e) => {
+                    eprintln!("harness error: {}", e);
+                    std::process::exit(2);
+                }
+                Ok(v) => {
+                    let same = v.as_ref().map(|v| v.class == rf.violation.class).unwrap_or(false);
+                    println!("{}", serde_json::json!({"replay": path, "violation": v, "reproduced": same}));
+                    std::process::exit(match (v.is_some(), same) {
+                        (true, true) => 1,
+                        (true, false) => 3,
+                        _ => 0,
+                    });
+                }
+            }
+        }
+        _ => {
+            eprintln!("usage: dalek-sim-alloc run|replay ...");
+            std::process::exit(2);
+        }
+    }
+}
